@@ -99,8 +99,15 @@ func drawRules(t *rapid.T, c *hx.Case, minT int) []*mrule {
 	return ms
 }
 
+// pacerFirst: a QPS pacing rule on argument 0 of resource a is listed before the concurrency rules; same-value requests
+// arriving together are asked to wait a little (the caller really sleeps) and must still be counted against the caps.
+var pacerFirst bool
+
 func load(t *rapid.T, ms []*mrule) {
 	var cp []*hotspot.Rule
+	if pacerFirst {
+		cp = append(cp, &hotspot.Rule{ID: "pacer", Resource: "a", MetricType: hotspot.QPS, ControlBehavior: hotspot.Throttling, ParamIndex: 0, Threshold: 100, DurationInSec: 1, MaxQueueingTimeMs: 3600000, SpecificItems: map[interface{}]int64{}})
+	}
 	for _, m := range ms {
 		cp = append(cp, cloneRule(m.r))
 	}
@@ -113,6 +120,9 @@ func load(t *rapid.T, ms []*mrule) {
 			if m.r.Resource == res {
 				n++
 			}
+		}
+		if pacerFirst && res == "a" {
+			n++
 		}
 		if got := len(hotspot.GetRulesOfResource(res)); got != n {
 			t.Fatalf("loaded %d valid rules for %s, module reports %d", n, res, got)
@@ -150,6 +160,10 @@ func TestPerValueCap(t *testing.T) {
 			c.Excluded("P6")
 		}
 		ms := drawRules(t, c, minT)
+		pacerFirst = rapid.IntRange(0, 3).Draw(t, "pacingRuleFirst") == 0
+		hx.C.Advance = pacerFirst
+		defer func() { pacerFirst, hx.C.Advance = false, false }()
+		c.ClassIf(pacerFirst, "pacing-rule-listed-before-the-concurrency-rules")
 		load(t, ms)
 		var lives []*lv
 		defer func() {
